@@ -20,7 +20,7 @@ ARGS = {
  "C02_m1": ["C02", "--archs", "avx,avx2", "--ops", "abs", "--types", "f64"],
  "C02_m2": ["C02", "--archs", "sse2,avx512f", "--ops", "fnms", "--types", "f32,f64"],
  "C02_m3": ["C02", "--archs", "sse2,avx512f", "--ops", "isfinite"],
- "C05_m1": ["C05", "--archs", "avx512bw", "--ops", "slide_left_1,slide_left_4,slide_left_12", "--types", "u8,i32"],
+ "C05_m1": ["C05", "--archs", "avx512bw", "--ops", "slide_left_3,slide_left_7,slide_left_4", "--types", "u8,i32"],
  "C05_m2": ["C05", "--archs", "sse2,avx2", "--ops", "compress", "--types", "f32,i32"],
  "C05_m3": ["C05", "--archs", "avx,avx2"],
  "C09_m1": ["C09", "--archs", "sse2,avx2", "--ops", "reduce_max", "--types", "i8,u16"],
